@@ -104,7 +104,12 @@ def opc2_target_decoder(ctx: Ctx) -> None:
         raise AnalysisError(f"OPC-2: only {len(handled)} opnames found in the decoder's dispatch chain; shape changed")
     # the chain must end in a raising else (unknown opcode => varname None, never a wrong name)
     for v in sorted(ctx.V.all, key=lambda s: tuple(map(int, s.split(".")))):
-        emitted = ctx.F["interp"][v]["targets"]["opnames"]
+        emitted = dict(ctx.F["interp"][v]["targets"]["opnames"])
+        # plus every always-rendered target of every with statement of that interpreter's standard library (3.11+)
+        sw = ctx.F["interp"][v].get("stdlib_with")
+        if sw:
+            for nm, cnt in sw["store_opnames"].items():
+                emitted[nm] = emitted.get(nm, 0) + cnt
         for nm in sorted(emitted):
             sites = [s for s in handled.get(nm, []) if v in reach.live.get(id(s), frozenset())]
             if not sites:
@@ -294,7 +299,12 @@ def opc3b_fillers(ctx: Ctx) -> None:
         for kind in ("sync", "async"):
             plain = Counter(IF["prologues"][f"plain/{kind}"][0])
             fillers: Dict[str, str] = {}
-            for lay, lists in IF["prologues"].items():
+            layouts = dict(IF["prologues"])
+            sw = IF.get("stdlib_with")
+            if sw:
+                for k_, (pl_, cnt_) in enumerate(sw["prologues"][kind]):
+                    layouts[f"stdlib#{k_}(x{cnt_})/{kind}"] = [pl_]
+            for lay, lists in layouts.items():
                 if not lay.endswith("/" + kind):
                     continue
                 for pl in lists:
